@@ -2018,6 +2018,11 @@ impl StorageEngine {
                 _ => return Err(StorageError::WrongType.into()),
             }
         } else {
+            // Setting nothing on a missing key creates nothing
+            if value.is_empty() {
+                return Ok(0);
+            }
+            
             // Create new string with padding
             let mut new_string = vec![0; offset + value.len()];
             new_string[offset..].copy_from_slice(&value);
